@@ -52,12 +52,14 @@ def h(x):
     e = d * 3
     return e
 
+HOOK = [None]
+
 def t(n):
     for i in range(n):
         v = i * 10
+        if HOOK[0] is not None:
+            HOOK[0]()
         yield v
-
-HOOK = [None]
 
 def k(x):
     # between its two bindings k runs whatever the harness put in HOOK (activate / deactivate a probe)
@@ -184,6 +186,11 @@ class System:
             ops.append(("ctxrun",))
         if self.wname == "W5":
             ops += [("gen", "start")] if gen == "none" else [("gen", "next"), ("gen", "close"), ("gen", "drop")]
+            if gen != "none" and gen < 3:
+                # the next step of the generator's own body activates / deactivates a global probe before it yields
+                for i in self.slots:
+                    if SLOTS[i][2] == "global":
+                        ops.append(("gnext-act", i) if i not in act else ("gnext-deact", i))
         return ops
 
     def step_model(self, model, op):
@@ -217,6 +224,9 @@ class System:
             if op[1] == "call":
                 return (act, wstack, calls + 1, gen), ("result", (calls + 2) * 2, ())
             return model, "ok"
+        if op[0] in ("gnext-act", "gnext-deact"):
+            act = act + (op[1],) if op[0] == "gnext-act" else tuple(i for i in act if i != op[1])
+            return (act, wstack, calls, gen + 1), "ok"
         if op[0] == "gen":
             # what the generator's own body delivers, and to whom, is C09's subject: not asserted here
             gen = {"start": 1, "next": (gen + 1 if gen != "none" and gen < 3 else "none"), "close": "none", "drop": "none"}[op[1]]
@@ -351,6 +361,24 @@ class System:
                         raise KeyError("leaving the shielded block by an exception")
                 except KeyError:
                     pass
+                return "ok"
+            if op[0] in ("gnext-act", "gnext-deact"):
+                for s in w.streams.values():
+                    del s[:]
+                hook = w.ns["HOOK"]
+                if op[0] == "gnext-act":
+                    def inside(slot=op[1]):
+                        p = self._make(w, slot)
+                        w.probes[slot] = p
+                        w.depth[slot] = 1
+                        p.__enter__()
+                    hook[0] = inside
+                else:
+                    hook[0] = lambda slot=op[1]: w.probes.pop(slot).__exit__(None, None, None)
+                try:
+                    next(w.gen)
+                finally:
+                    hook[0] = None
                 return "ok"
             if op[0] == "gen":
                 import gc
